@@ -832,7 +832,7 @@ fn record(o: &Opts) -> Res<()> {
     let mut out = Out::open(&o.out)?;
     let mut rng = o.rng(0xfee);
     let car = Carriers::new();
-    let ntx: usize = o.opt("--n").map(|s| s.parse().unwrap()).unwrap_or(if o.thorough() { 5_000 } else { 600 });
+    let ntx: usize = o.opt("--n").map(|s| s.parse().unwrap()).unwrap_or(if o.thorough() { 20_000 } else { 600 });
     for txi in 0..ntx {
         let r = rand_recipe(&mut rng, o.thorough());
         let tx = build(&r);
